@@ -95,6 +95,19 @@ OBLIGATIONS.update({
     ],
 })
 
+OBLIGATIONS['C03'] += [('sign::CoseSign1::tbs_detached_data__nec_payload', 'nec'), ('sign::CoseSign::tbs_detached_data__nec_payload', 'nec'),
+                       ('sign::CoseSign::verify_signature__nec_index', 'nec'), ('sign::CoseSign::verify_detached_signature__nec_index', 'nec')]
+OBLIGATIONS['C04'] += [('mac::CoseMac::tbm__nec_payload', 'nec'), ('mac::CoseMac0::tbm__nec_payload', 'nec')]
+OBLIGATIONS['C05'] += [('encrypt::CoseRecipient::decrypt__nec_ciphertext', 'nec'), ('encrypt::CoseRecipient::decrypt__nec_context', 'nec'),
+                       ('encrypt::CoseEncrypt::decrypt__nec_ciphertext', 'nec'), ('encrypt::CoseEncrypt0::decrypt__nec_ciphertext', 'nec'),
+                       ('encrypt::CoseRecipientBuilder::aad__nec_context', 'nec')]
+OBLIGATIONS['C19'] = [
+    ('*Builder::*', 'body'),
+    ('header::HeaderBuilder::value__nec_reserved', 'nec'), ('key::CoseKeyBuilder::param__nec_reserved', 'nec'),
+    ('cwt::ClaimsSetBuilder::claim__nec_reserved', 'nec'), ('cwt::ClaimsSetBuilder::private_claim__nec_private', 'nec'),
+    ('key::KeyType::default', 'body'), ('common::Algorithm::default', 'body'),
+]
+
 # items that must FAIL verification (vacuity / soundness canaries), checked on every run
 MUST_FAIL = ['vcanary::canary_false', 'vcanary::canary_axioms']
 
